@@ -85,6 +85,13 @@ def _small_shape(rng):
     return s
 
 
+def _net_safe_shape(rng):
+    s = gen.draw_shape(rng)
+    while s["name"] not in ("tiny", "small", "medium", "boundary", "nully", "taggy"):
+        s = gen.draw_shape(rng)
+    return s
+
+
 def gen_header(rng, hcls, payload_cls, correlation_id=None):
     h = gen.gen_instance(rng, hcls, _small_shape(rng))
     names = {f.name for f in dataclasses.fields(hcls)}
@@ -434,7 +441,12 @@ def run_l2(run_seed: int, cfg: dict) -> L2Result:
                 if k >= len(log["client_sent"]) or log["client_sent"][k] != (hdr, req) or type(req) is not type(log["client_sent"][k][1]):
                     res.flag("L2:request-received-differs-from-sent(order/integrity)")
                 resp_cls = t["resp"][key]
-                resp = gen.gen_instance(rng, resp_cls, _small_shape(rng))
+                resp = gen.gen_instance(rng, resp_cls, _small_shape(rng) if cfg["depth"] == 1 else _net_safe_shape(rng))
+                if cfg["depth"] > 1:
+                    for _ in range(4):
+                        if len(_alone(resp_cls, resp)) <= 16384:
+                            break
+                        resp = gen.gen_instance(rng, resp_cls, gen.MIN_SHAPE)
                 rh = gen_header(rng, resp_cls.__header_schema__, resp_cls, correlation_id=hdr.correlation_id)
                 if cfg["service_max"]:
                     await asyncio.sleep(rng.random() * cfg["service_max"])
@@ -465,10 +477,20 @@ def run_l2(run_seed: int, cfg: dict) -> L2Result:
         n_req = cfg["requests"]
         try:
             inflight: collections.deque = collections.deque()
+            outstanding = 0  # request bytes written but not yet answered (kept below the flow-control windows)
             for k in range(n_req):
                 key = rng.choice(t["pairs"])
                 req_cls, resp_cls = t["req"][key], t["resp"][key]
-                req = gen.gen_instance(rng, req_cls, _BIG_SHAPE if rng.random() < 0.03 else _small_shape(rng))
+                # Pipelined calls (depth > 1) must stay far below the stream flow-control windows
+                # (the reader pauses above 128 KiB): a client that keeps writing while not yet
+                # reading and a broker blocked in drain() would otherwise dead-lock each other -
+                # a property of this stub protocol, not of kio.  Large payloads therefore only
+                # travel on unpipelined connections.
+                if cfg["depth"] == 1:
+                    shape = _BIG_SHAPE if rng.random() < 0.03 else _small_shape(rng)
+                else:
+                    shape = _net_safe_shape(rng)
+                req = gen.gen_instance(rng, req_cls, shape)
                 corr = i32(rng.randint(0, 2**31 - 1))
                 hdr = gen_header(rng, req_cls.__header_schema__, req_cls, correlation_id=corr)
                 log["client_sent"].append((hdr, req))
@@ -476,7 +498,9 @@ def run_l2(run_seed: int, cfg: dict) -> L2Result:
                 await w.drain()
                 res.stats["requests_written"] += 1
                 inflight.append((corr, resp_cls))
-                if len(inflight) >= cfg["depth"] or k == n_req - 1:
+                outstanding += len(_alone(req_cls, req)) + 64
+                if len(inflight) >= cfg["depth"] or k == n_req - 1 or outstanding > 32768:
+                    outstanding = 0
                     while inflight:
                         corr_x, rc = inflight.popleft()
                         body = await read_frame(r)
